@@ -176,6 +176,25 @@ ADD6 = {
  "C20": "the store marshals with the required-field check the loader applies (no AllowPartial).",
 }
 
+ADD7 = {
+ "C02": "a registration's transport parameters are the value its transport's ParseParams returned (never a raw message); a matched connection marks only the record under the matched registration's own (phantom, identifier) key as used, and nothing else in the package flips a record to used.",
+ "C03": "from the listener's Accept to the classification handler the accepted connection goes to the handler goroutine and to nothing else, and the carrier reaches the handler unless a call on the connection (or its descriptor) failed; the manager's GeoIP database (called without a nil test by the handler) is replaced only by a database that opened.",
+ "C04": "(shared with C05.11) the relay buffer of each pipe is a fresh allocation private to that pipe.",
+ "C05": "each forwarded chunk pushes out the read deadline of the source and both deadlines of the destination on every path back to the next Read; the open-session gauge moves only by the +1 / -1 of addSession / removeSession (no store, no whole-object reset); the buffer Read fills is allocated by that call of halfPipe (or a fresh allocation of its own handed in by every caller).",
+ "C06": "(shared with C19.2) a reload takes over every parsed policy list from the same-named field of the new configuration on every path, unconditionally.",
+ "C07": "nothing in the program writes the address-family switches enable_v4 / enable_v6.",
+ "C08": "every call of the sweep selects the expired records and removes each of them: selection and removal loop are reached whatever any condition says (an empty selection excepted); activation marks only the matched registration's own record (shared with C02.14).",
+ "C09": "a channel handed to worker goroutines is closed only after the wait for those workers.",
+ "C10": "the clear request is sent only by main's deferred Cleanup, and the ingest pipeline returns only after its workers returned (no New can follow the Clear).",
+ "C11": "x[len(x)-k] indexing needs len(x) >= k (strings.Split results are never empty, strings.Fields* results can be); every loop on the externally reachable paths is a range loop, a counted loop, or consumes an input stream / waits for an event (65 today; anything else must be in a reviewed table, which is empty).",
+ "C12": "the station applies the response's transport parameters whenever they are present and the client allows overrides - no other condition (the address family being built) decides it.",
+ "C13": "from the ReloadSubnets call in the SIGHUP handler every path leads back to the receive from the signal channel (no return / exit of the handler goroutine after a failed reload); ReloadSubnets itself contains no channel operation, select or wait.",
+ "C15": "the tag obfuscators' key search ends only with a key for which ScalarBaseMult reported a representative (helper-aware); Noise cipher states are never stored in a field, map or global of the DNS registrar; the requester's receive loop queues the payload of every response that parses.",
+ "C16": "the watchdog flag is raised only under the comparison of the received message with the heartbeat payload; a slot the accept loop takes from a bounded channel for a handshake is released on every exit of that handshake goroutine; the registered certificate pair is certsFromSeed(PSK)#0 / #1 whichever function fills it.",
+ "C18": "phantomLookup answers (false, nil) unless one of the caches had a hit (PhantomIsLive takes any error as a cache answer); liveness.New returns a tester allocated by that call (no registry of earlier testers); Init's wiring rule sees through a constructor-choosing helper.",
+ "C19": "the manager's GeoIP database is replaced only if the open did not fail (err == nil or ErrMissingDB); the policy take-over in OnReload is unconditional; nothing statically reachable from the expiry pass is an unchecked type assertion, explicit panic, exit call or integer division by a variable.",
+}
+
 ALL = ["C%02d" % i for i in range(1, 21)]
 
 def main():
@@ -190,7 +209,7 @@ def main():
                 "evidence_file": "/verif/evidence/%s.json" % pid,
                 "replay_cmd_template": "cat {path}",
                 "engine": "cjverif",
-                "level_claimed": {"category": "other", "text": ent[2] + (" Further decided (seed rounds 3-4, DESIGN 10.5): " + ADD34[pid] if pid in ADD34 else "") + (" Round 5: " + ADD5[pid] if pid in ADD5 else "") + (" Round 6: " + ADD6[pid] if pid in ADD6 else ""), "design_ref": "DESIGN.md section " + ent[3] + " and 10.2"},
+                "level_claimed": {"category": "other", "text": ent[2] + (" Further decided (seed rounds 3-4, DESIGN 10.5): " + ADD34[pid] if pid in ADD34 else "") + (" Round 5: " + ADD5[pid] if pid in ADD5 else "") + (" Round 6: " + ADD6[pid] if pid in ADD6 else "") + (" Round 7: " + ADD7[pid] if pid in ADD7 else ""), "design_ref": "DESIGN.md section " + ent[3] + " and 10.2"},
                 "level_note": NOTE,
                 "technique": "static analysis: " + ent[1],
             })
